@@ -40,7 +40,8 @@ RELATED = {
     "C08": ["contracts.c13"],
     "C10": ["contracts.c08", "contracts.c12", "contracts.c13"],
     "C12": ["contracts.c13", "contracts.c17"],
-    "C17": ["contracts.c12"],
+    "C17": ["contracts.c12", "contracts.c03_bounded"],
+    "C18": ["contracts.c15"],
 }
 
 _search_cache = {}
